@@ -24,6 +24,7 @@ import (
 	"strconv"
 	"strings"
 
+	"golang.org/x/tools/go/ast/astutil"
 	"golang.org/x/tools/go/packages"
 )
 
@@ -709,6 +710,9 @@ func (r *rewriter) stmt(s ast.Stmt) []ast.Stmt {
 			return append(append(pre, x), post...)
 		}
 		if hasRecv(x.X) {
+			if res := r.hoistNested(x); res != nil {
+				return res
+			}
 			r.errf(x, "receive nested in expression statement not supported")
 		}
 		return []ast.Stmt{x}
@@ -726,6 +730,11 @@ func (r *rewriter) stmt(s ast.Stmt) []ast.Stmt {
 			}
 		}
 		if hasRecv(x) {
+			if x.Tok != token.DEFINE || true {
+				if res := r.hoistNested(x); res != nil {
+					return res
+				}
+			}
 			r.errf(x, "receive nested in assignment not supported")
 		}
 		return []ast.Stmt{x}
@@ -742,6 +751,9 @@ func (r *rewriter) stmt(s ast.Stmt) []ast.Stmt {
 			}
 		}
 		if hasRecv(x) {
+			if res := r.hoistNested(x); res != nil {
+				return res
+			}
 			r.errf(x, "receive nested in return not supported")
 		}
 		return []ast.Stmt{x}
@@ -755,6 +767,96 @@ func (r *rewriter) stmt(s ast.Stmt) []ast.Stmt {
 	}
 	r.errf(s, "unknown statement type %T", s)
 	return nil
+}
+
+// hoistNested handles a statement (expression statement, assignment, return) that contains exactly one
+// receive nested inside a larger expression, e.g. x, _ = f(<-ch, y): when no call and no other receive is
+// evaluated before it (Go evaluates calls and receives in lexical left-to-right order), the receive can be
+// performed first into a temporary without changing the meaning. Returns nil when the form does not apply.
+func (r *rewriter) hoistNested(s ast.Stmt) []ast.Stmt {
+	var recvs []*ast.UnaryExpr
+	var stack []ast.Node
+	var anc []ast.Node // ancestors of the first receive
+	ast.Inspect(s, func(n ast.Node) bool {
+		if n == nil {
+			stack = stack[:len(stack)-1]
+			return true
+		}
+		if _, ok := n.(*ast.FuncLit); ok {
+			return false
+		}
+		if u, ok := n.(*ast.UnaryExpr); ok && u.Op == token.ARROW {
+			if len(recvs) == 0 {
+				anc = append([]ast.Node(nil), stack...)
+			}
+			recvs = append(recvs, u)
+		}
+		stack = append(stack, n)
+		return true
+	})
+	if len(recvs) != 1 {
+		return nil
+	}
+	u := recvs[0]
+	isAnc := map[ast.Node]bool{}
+	for _, a := range anc {
+		isAnc[a] = true
+		// the right operand of && and || is evaluated conditionally
+		if b, isBin := a.(*ast.BinaryExpr); isBin && (b.Op == token.LAND || b.Op == token.LOR) && u.Pos() >= b.Y.Pos() {
+			return nil
+		}
+	}
+	ok := true
+	ast.Inspect(s, func(n ast.Node) bool {
+		if n == nil || !ok {
+			return false
+		}
+		if _, isLit := n.(*ast.FuncLit); isLit {
+			return false
+		}
+		if c, isCall := n.(*ast.CallExpr); isCall {
+			if tv, has := r.info.Types[c.Fun]; has && tv.IsType() {
+				return true // a conversion evaluates nothing by itself
+			}
+			if isAnc[c] {
+				// an enclosing call runs after its arguments; the expression that yields the function must not call
+				ast.Inspect(c.Fun, func(m ast.Node) bool {
+					if _, bad := m.(*ast.CallExpr); bad {
+						ok = false
+					}
+					return ok
+				})
+				return true
+			}
+			if c.Pos() < u.Pos() {
+				ok = false
+			}
+		}
+		return true
+	})
+	if !ok {
+		return nil
+	}
+	if ls, isAssign := s.(*ast.AssignStmt); isAssign {
+		for _, l := range ls.Lhs {
+			if hasRecv(l) {
+				return nil
+			}
+		}
+	}
+	pre, c, post := r.recvGuards(u)
+	tmp := r.name("r")
+	recv := &ast.UnaryExpr{Op: token.ARROW, X: c}
+	list := append(pre, define(exprs(tmp), recv))
+	list = append(list, post...)
+	astutil.Apply(s, func(cur *astutil.Cursor) bool {
+		if cur.Node() == u {
+			cur.Replace(tmp)
+			return false
+		}
+		return true
+	}, nil)
+	return append(list, s)
 }
 
 // recvGuards returns the statements to put before and after a statement
